@@ -50,6 +50,15 @@ def scenario(run, e4, sc):
                     while time.monotonic() - t1 < 4 * TIMEOUT:
                         e4.request(srv.addr, "/sleep/%.1f" % (0.5 * TIMEOUT), timeout=10)
                 threads = [threading.Thread(target=hammer, daemon=True) for _ in range(3)]
+            elif kind == "healthy-mixed":
+                # requests of 0.7 x timeout separated by idle gaps of 0.1-0.6 x timeout, for 6 x timeout, one client per worker
+                def mixed(i):
+                    rng = __import__("random").Random(sc.get("seed", 0) * 7 + i)
+                    t1 = time.monotonic()
+                    while time.monotonic() - t1 < 6 * TIMEOUT:
+                        time.sleep(rng.choice([0.1, 0.3, 0.45, 0.6]) * TIMEOUT)
+                        e4.request(srv.addr, "/sleep/%.1f" % (0.7 * TIMEOUT), timeout=10)
+                threads = [threading.Thread(target=mixed, args=(i,), daemon=True) for i in range(2)]
             else:   # healthy-long: one request of 3 x timeout inside a handler of a concurrent worker
                 res = {}
 
@@ -71,7 +80,7 @@ def scenario(run, e4, sc):
             w1 = srv.worker_pids()
             log = srv.error_log()
             if "WORKER TIMEOUT" in log or set(w1) != set(w0):
-                if maxlag > 0.5:
+                if maxlag > (0.25 if kind == "healthy-mixed" else 0.5):
                     return v, "healthy worker killed but scheduling lag was %.2f s" % maxlag, info
                 v.append(("healthy-worker-killed/" + kind, "%s worker set changed %s -> %s, WORKER TIMEOUT in log: %s (timeout %d s, pattern %s)" % (
                     wc, w0, w1, "WORKER TIMEOUT" in log, TIMEOUT, kind)))
@@ -81,14 +90,23 @@ def scenario(run, e4, sc):
         # ---- hang scenarios ----------------------------------------------------------------------
         plog = []
         pt = threading.Thread(target=probe_loop, args=(e4, srv, stop, plog), daemon=True)
-        if kind in ("block", "block-ignabrt", "busy"):
-            path = {"block": "/block/x", "block-ignabrt": "/block/ignabrt", "busy": "/busy/60"}[kind]
+        if kind in ("block", "block-ignabrt", "busy", "block-then-hup", "block-then-ttou"):
+            path = {"block": "/block/x", "block-ignabrt": "/block/ignabrt", "busy": "/busy/60", "block-then-hup": "/block/x",
+                    "block-then-ttou": "/block/x"}[kind]
             ht = threading.Thread(target=lambda: e4.request(srv.addr, path, timeout=30), daemon=True)
             ht.start()
-            msg = {"block": "blocking x", "block-ignabrt": "blocking ignabrt", "busy": "busy 60"}[kind]
+            msg = {"block": "blocking x", "block-ignabrt": "blocking ignabrt", "busy": "busy 60", "block-then-hup": "blocking x",
+                   "block-then-ttou": "blocking x"}[kind]
             victim = srv.wait_phase(msg, 10)
             if victim is None:
                 return v, "hang phase not established", info
+            if kind == "block-then-hup":
+                time.sleep(0.4)
+                srv.signal(signal.SIGHUP)       # the hung worker becomes an old-generation worker that was asked to stop
+            elif kind == "block-then-ttou":
+                time.sleep(0.4)
+                if victim == min(w0):           # only the oldest worker becomes surplus
+                    srv.signal(signal.SIGTTOU)
         else:   # stop
             victim = w0[0]
             os.kill(victim, signal.SIGSTOP)
@@ -117,6 +135,9 @@ def scenario(run, e4, sc):
                 return v, None, info
         else:
             run.count("live_hung_worker_killed")
+        if kind == "block-then-ttou":
+            stop.set()
+            return v, None, info
         # replaced
         t1 = time.monotonic()
         neww = None
@@ -154,12 +175,14 @@ def plan(run, tier, seed):
              ("eventlet", "busy"), ("gevent", "stop"), ("eventlet", "stop"),
              ("sync", "healthy-idle"), ("gthread", "healthy-idle"), ("gevent", "healthy-idle"), ("eventlet", "healthy-idle"),
              ("sync", "healthy-busy"), ("gthread", "healthy-busy"), ("gevent", "healthy-busy"), ("eventlet", "healthy-busy"),
-             ("gthread", "healthy-long"), ("gevent", "healthy-long"), ("eventlet", "healthy-long")]
+             ("gthread", "healthy-long"), ("gevent", "healthy-long"), ("eventlet", "healthy-long"),
+             ("sync", "healthy-mixed"), ("sync", "block-then-hup"), ("sync", "block-then-ttou")]
     if tier == "quick":
         # every hang kind and every healthy pattern once per run, classes rotated by the seed
-        pick = [c for i, c in enumerate(cells) if c[1] in ("block", "block-ignabrt") or (i + seed) % 2 == 0]
+        pick = [c for i, c in enumerate(cells) if c[1] in ("block", "block-ignabrt", "healthy-mixed", "block-then-hup")
+                or (i + seed) % 2 == 0]
         cells = pick
-    return [{"kind": "live", "scenario": {"class": c, "kind": k, "idx": i}, "seed": seed, "tier": tier}
+    return [{"kind": "live", "scenario": {"class": c, "kind": k, "idx": i, "seed": seed}, "seed": seed, "tier": tier}
             for i, (c, k) in enumerate(cells)]
 
 
